@@ -16,7 +16,7 @@ from ..world import World
 ID = "C10"
 LEVEL = "exploration"
 RULE = ("scenario = URL assembled from scheme x host form (name, IPv4, bracketed IPv6) x port (none, 80, 443, other) x "
-        "path x query, options host / origin / suppress_origin / subprotocols / cookie / header (list; dict incl. None "
+        "path x query, options host / origin / suppress_origin / subprotocols / cookie / connection (as value and as full line) / header (list; dict incl. None "
         "values) / connection, 1..3 successive connections.  Expected values are known by construction.  Oracle = "
         "reference HTTP parser on the bytes the peer received before its first reply (one GET, CRLF line ends, one "
         "terminating empty line, nothing after; Host rule; Upgrade, Connection, Version 13; key = base64 of the 16 "
@@ -99,10 +99,15 @@ def gen(rng):
         o["header"] = ["X-One: 1", "User-Agent: sim/1.0"][: rng.randrange(1, 3)]
     elif r < 0.4:
         o["header"] = {"X-Token": "abc", "X-None": None, "Authorization": "Bearer " + "z" * rng.choice((5, 300))}
+        if rng.random() < 0.25:
+            # None means "not given" for every header of the dict: the handshake's own headers must still be there
+            o["header"][rng.choice(("Sec-WebSocket-Key", "Sec-WebSocket-Version"))] = None
     elif r < 0.45:
         o["header"] = {}
     if rng.random() < 0.15:
-        o["connection"] = rng.choice(("Connection: keep-alive, Upgrade", "Connection: Upgrade, keep-alive"))
+        # documented as "custom connection header value"; a full header line is what the implementation used to expect
+        o["connection"] = rng.choice(("Connection: keep-alive, Upgrade", "Connection: Upgrade, keep-alive", "Upgrade", "keep-alive, Upgrade",
+                                      "upgrade"))
     sc["opts"] = o
     if sc["host"] != "redir" and rng.random() < 0.2:
         # the server redirects once, possibly to the other scheme: the second request must reflect the URL it is sent for
@@ -134,6 +139,8 @@ def run(sc, choices=None):
         hdr = opts.get("header")
         if isinstance(hdr, dict):
             for k in hdr:
+                if hdr[k] is None and k in ("Sec-WebSocket-Key", "Sec-WebSocket-Version"):
+                    continue  # "not given"
                 if k.lower() in ("host", "upgrade", "connection", "origin", "cookie") or k.lower().startswith("sec-websocket"):
                     raise InvalidScenario("header collides")
     except (KeyError, TypeError, ValueError) as e:
@@ -280,7 +287,7 @@ def _check_request(p, sc, url, eff_port, draws, idx):
         return ("missing_upgrade_header", f"Upgrade {one('Upgrade')}")
     cv = one("Connection")
     if opts.get("connection"):
-        want_c = opts["connection"].split(":", 1)[1].strip()
+        want_c = opts["connection"].split(":", 1)[1].strip() if opts["connection"].lower().startswith("connection:") else opts["connection"]
         if cv != [want_c]:
             return ("connection_option_not_reflected", f"Connection {cv}, expected {want_c!r}")
     elif [v.lower() for v in cv] != ["upgrade"]:
@@ -327,7 +334,7 @@ def _check_request(p, sc, url, eff_port, draws, idx):
     if isinstance(hdr, dict):
         pairs = [(k, v) for k, v in hdr.items() if v is not None]
         for k, v in hdr.items():
-            if v is None and one(k):
+            if v is None and one(k) and k not in ("Sec-WebSocket-Key", "Sec-WebSocket-Version"):
                 return ("header_option_not_reflected", f"header {k} with value None was sent: {one(k)}")
     elif isinstance(hdr, list):
         pairs = [tuple(x.strip() for x in h.split(":", 1)) for h in hdr]
